@@ -33,14 +33,14 @@ fn cfg_of(case: &J, addrs: [u64; 3], nbytes: usize) -> Cfg {
         seed: case["seed"].as_u64().unwrap_or(1),
         only: case["only"].as_array().map(|a| a.iter().filter_map(|x| x.as_str().map(|s| s.to_string())).collect()),
         max_units: case["max_units"].as_u64().map(|x| x as usize).unwrap_or(if big { 2 } else { 6 }),
-        max_entries: case["max_entries"].as_u64().map(|x| x as usize).unwrap_or(if big { 120 } else { 400 }),
+        max_entries: case["max_entries"].as_u64().map(|x| x as usize).unwrap_or(if big { 60 } else { 400 }),
         addrs,
     }
 }
 
-fn new_obs(case: &J, slack: u64) -> Obs {
+fn new_obs(case: &J, slack: u64, nbytes: usize) -> Obs {
     let mut o = Obs::default();
-    o.budget = case["budget"].as_u64().unwrap_or(30_000);
+    o.budget = case["budget"].as_u64().unwrap_or(if nbytes > 60_000 { 8_000 } else { 30_000 });
     o.slack = slack;
     o
 }
@@ -48,7 +48,7 @@ fn new_obs(case: &J, slack: u64) -> Obs {
 /// Fields (offset, width) read by the parsers in a clean traced run.
 fn discover_fields(secs: &Secs, endian: RunTimeEndian, cfg: &Cfg, case: &J) -> Fields {
     let src = TraceSrc { secs, endian, shared: None, per: RefCell::new(BTreeMap::new()) };
-    let mut o = new_obs(case, 0);
+    let mut o = new_obs(case, 0, secs.values().map(|v| v.len()).sum());
     drive_all(&mut o, &src, cfg);
     let mut f = Fields::new();
     for (name, log) in src.per.borrow().iter() {
@@ -105,7 +105,7 @@ fn replay(case: &J) -> J {
     };
     let tsec = case["tails"]["sec"].as_str().unwrap_or("").to_string();
     let faulty = case["reader"].as_str() == Some("faulty");
-    let mut o = new_obs(case, if faulty && !case["fail_at"].is_null() { 1 } else { 0 });
+    let mut o = new_obs(case, if faulty && !case["fail_at"].is_null() { 1 } else { 0 }, nbytes);
     let mut ops = J::Null;
     let mut k_eff = J::Null;
     let mut variants = 0u64;
@@ -151,7 +151,7 @@ fn replay(case: &J) -> J {
                 _ => {
                     let log = Rc::new(RefCell::new(Log { events: Vec::new(), ops: 0, fail_at: None, keep: false }));
                     let src = TraceSrc { secs: use_secs, endian, shared: Some(log.clone()), per: RefCell::new(BTreeMap::new()) };
-                    let mut oc = new_obs(case, 0);
+                    let mut oc = new_obs(case, 0, nbytes);
                     oc.variant = o.variant.clone();
                     drive_all(if fail_at.is_none() { &mut o } else { &mut oc }, &src, &cfg);
                     o.abnormal.extend(oc.abnormal.into_iter());
